@@ -69,3 +69,25 @@ pub fn memo_once(seed: u32) -> u32 {
     }
     ONCE.with(|c| *c.get_or_init(|| seed * 2))
 }
+
+/// a slice from the result of one search to the result of another search of the same string (C08 R08-c str-range-ordered must report it)
+pub fn range_two_searches(s: &str) -> &str {
+    let (Some(a), Some(b)) = (s.find("${"), s.find('}')) else {
+        return s;
+    };
+    &s[a + 2..b]
+}
+
+/// the same, with the second search started where the first ended (must hold)
+pub fn range_chained_searches(s: &str) -> &str {
+    let Some(a) = s.find("${") else { return s };
+    let Some(b) = s[a..].find('}') else { return s };
+    &s[a + 2..a + b]
+}
+
+/// a cut at an offset measured on another string (C08 R08-c str-offset-same-string must report it)
+pub fn cut_at_foreign_offset(line: &str) -> &str {
+    let folded = line.to_lowercase();
+    let n = folded.len() - folded.trim_start().len();
+    &line[n..]
+}
